@@ -65,4 +65,19 @@ CHECKS["C16"] = {
     "engine": "tlc+vh",
 }
 
+CHECKS["C14"] = {
+    "category": "model_checking",
+    "text": "spec/BlockingIO.tla models the blocking frame Reader (prefix loop, max_len check, read_exact, decode) against an environment that "
+            "chooses every read outcome (deliver k, Interrupted, eof at every cut point) and the Writer (encode, max_len check, write_all) against "
+            "a sink that accepts k bytes, is interrupted, accepts zero or fails; TLC checks in-order delivery, truncation detection, clean end only "
+            "at a frame boundary, resynchronisation after an undecodable payload, the buffer bound, whole frames in the sink and the length "
+            "returned. Every explored schedule is replayed on the real Reader / Writer, including frames that claim 0x7ffffff0 bytes (allocation "
+            "before the check becomes visible through the counting allocator); random runs are validated event by event.",
+    "design_ref": "DESIGN.md section 6, C14",
+    "note": "Trusted: TLC, std's read_exact/write_all as documented, the counting allocator. Only Interrupted errors are in the model on the read "
+            "side, as in the property's quantifier.",
+    "technique": "TLA+ state-machine spec (BlockingIO) + TLC exhaustive exploration of fragmentation/interruption/cut schedules + schedule replay + trace validation",
+    "engine": "tlc+vh",
+}
+
 NOT_YET = "check not built yet in this round (planned in DESIGN.md section 10); not claimed until it exists"
